@@ -1801,3 +1801,83 @@ func famFastPathTerm(t *testing.T, seed int64, steps int) *Cluster {
 	c.converge(500 * time.Millisecond)
 	return c
 }
+
+// famFastPathUp: like fastpathterm, but the heartbeat that arrives while B's term write (T+1) is in progress comes
+// from the leader of a HIGHER term (T+2): five servers, A is cut off, C wins T+1 and hands leadership to D (T+2)
+// while B's main goroutine is still parked in the store. B's reported and persisted term must never decrease (C06).
+func famFastPathUp(t *testing.T, seed int64, steps int) *Cluster {
+	opt := DefaultOptions(seed)
+	opt.Family = "fastpathup"
+	opt.Servers = []string{"n1", "n2", "n3", "n4", "n5"}
+	opt.Initial = map[string]string{"n1": "V", "n2": "V", "n3": "V", "n4": "V", "n5": "V"}
+	opt.HBFast = true
+	opt.PreVoteOff = true
+	c := NewCluster(t, opt)
+	c.Bootstrap()
+	c.StartAll()
+	A := c.WaitLeader(2 * time.Second)
+	if A == "" {
+		return c
+	}
+	var others []string
+	for _, id := range opt.Servers {
+		if id != A {
+			others = append(others, id)
+		}
+	}
+	B := others[int(seed)%4]
+	c.Apply(A, 0)
+	c.Settle("client")
+	c.Drive(100*time.Millisecond, nil, nil)
+	if c.Leader() != A {
+		c.converge(500 * time.Millisecond)
+		return c
+	}
+	T := c.byID[A].Raft.CurrentTerm()
+	bn := c.byID[B]
+	bn.inc.mu.Lock()
+	bn.inc.parkAt = 1
+	bn.inc.mu.Unlock()
+	lateAB := func(r *Rpc) bool { return !(r.Src == A && r.Dst == B) }
+	if !c.Drive(6*opt.Election, lateAB, func() bool { return bn.inc.Parked() }) {
+		c.converge(500 * time.Millisecond)
+		return c
+	}
+	// A is gone; the other three elect among themselves (B's requests are lost, nothing but heartbeats reaches B)
+	c.isolate(A)
+	c.dropPendingFrom(A)
+	rest := func(r *Rpc) bool {
+		if r.Src == B || (r.Dst == B && r.Kind != "hb") {
+			return false
+		}
+		return true
+	}
+	noB := func(r *Rpc) bool { return r.Src != B && r.Dst != B }
+	ok := c.Drive(3*time.Second, noB, func() bool { x := c.Leader(); return x != "" && x != A && x != B })
+	if ok && seed%3 != 2 {
+		// one more term: leadership is handed on
+		X := c.Leader()
+		for _, id := range others {
+			if id != B && id != X {
+				c.Transfer(X, id)
+				break
+			}
+		}
+		c.Settle("client")
+		c.Drive(3*time.Second, noB, func() bool {
+			x := c.Leader()
+			return x != "" && x != X && x != A && x != B && c.byID[x].Raft.CurrentTerm() >= T+2
+		})
+	}
+	// the new leader's heartbeats reach B (fast path); then B's disk write completes
+	c.Drive(60*time.Millisecond, rest, nil)
+	if bn.inc.Parked() {
+		bn.inc.Unpark()
+		c.Settle("diskdone")
+	}
+	c.Drive(40*time.Millisecond, rest, nil)
+	c.healAll()
+	c.Drive(200*time.Millisecond, nil, nil)
+	c.converge(500 * time.Millisecond)
+	return c
+}
